@@ -67,7 +67,7 @@ def handle (line : String) : String :=
       | "malformed" => some .malformed | "init" => some .init | "start-ok" => some (.start true)
       | "start-bad" => some (.start false) | "stop" => some .stop | "terminate" => some .terminate
       | "ping" => some .ping | "pong" => some .pong | "unknown" => some .unknown | _ => none
-    let close? : Option (Option Nat) := if close == "-" then some none else close.toNat?.map some
+    let close? : Option (Option Nat) := if close == "-" then some none else if close == "abrupt" then some (some 0) else close.toNat?.map some
     match p?, didInit.atom?.bind boolOf, f?, close?, acks.nat?, pongs.nat?, started.atom?.bind boolOf with
     | some p, some di, some f, some cl, some a, some po, some st =>
       let want := observe di (dispatch p di f)
